@@ -20,6 +20,15 @@ pub open spec fn cap_of(opt: &BuildOption, dimensions: usize) -> u64 {
     (match opt.split_after { Some(s) => s, None => dimensions }) as u64
 }
 
+impl ImmutableTrees {
+//@extract src/parallel.rs | impl<'t, D: Distance> ImmutableTrees<'t, D> | empty
+//@stub
+//@specfile lib/contracts/immutable_trees_empty.spec
+//@spec
+        forall|id: u32| !r.db_has(id),
+//@end
+}
+
 impl Writer {
 //@extract src/writer.rs | impl<D: Distance> Writer<D> | make_tree_in_file
 //@stub
